@@ -2246,12 +2246,237 @@ def older_types_history(rng, v_old: str, cross: bool, avoid_hb: bool, length: in
     return h
 
 
+def _c19_obs(o):
+    """What C19 compares between two versions after a step: outcome (yielded message or error), write attempts,
+    registry (with flags), both buffers."""
+    s = split_state(o["state"])
+    return (o["out"], o["writes"], s["nodes"], s["ibuf"], s["sbuf"])
+
+
+def _c19_first_diff(ia, ib):
+    """First step (index into the observation lists) at which two runs of the same history differ, or None."""
+    for i, (oa, ob) in enumerate(zip(ia, ib)):
+        if _c19_obs(oa) != _c19_obs(ob):
+            return i
+    return None
+
+
+def _c19_shrink(h: Hist, a: str, w: str) -> Hist:
+    """Greedy one-pass shrink of a history on which versions `a` and `w` differ: drop every operation without which
+    the two runs still differ somewhere (re-executed on the implementation).  Presentations are never dropped: the
+    shrunk history must stay inside the property's domain (no unknown node or child is referenced)."""
+    def differs(ops):
+        ia, ib = gw.run_impl_many([Hist(a, h.metric, h.preload, ops), Hist(w, h.metric, h.preload, ops)])
+        return _c19_first_diff(ia, ib)
+
+    ops = list(h.ops)
+    for k in range(len(ops) - 2, -1, -1):
+        if ops[k][0] == "recv" and ops[k][1].split(";")[2:3] == ["0"]:
+            continue
+        cand = ops[:k] + ops[k + 1:]
+        if differs(cand) is not None:
+            ops = cand
+    d = differs(ops)
+    return Hist(a, h.metric, h.preload, ops[:d] if d is not None else ops)
+
+
+# payload kinds of a set message / send call in the type grid (C01's domain: no line terminator, no trailing space)
+GRID_PAYLOADS = ["1", "0", "21.5", "", "abc", "-3", "100", "on", "1e3", "55.7;13.0;18", "  x", "température °C", "HeatOn", "3.3"]
+GRID_CHUNK = 10
+
+
+def type_grid_histories(rng, outside: bool = False):
+    """The property quantifies over ALL histories over the older protocol's message types; the random histories above
+    use a handful of child types and value types.  This is the systematic part: for every presentation type p and every
+    set/req type s, the versions A(p, s) in whose tables BOTH exist are computed from the extracted tables; the cells
+    are grouped by (p, A) and cut into histories of <= GRID_CHUNK value types:
+
+        the node presents itself (or is already known, with the reboot / sleeping flag set), a child of type p is
+        presented, then for each s: [req s,] set s <payload kind>, req s, send call of a set s <payload kind>
+
+    Such a history consists of message types of every a in A, so for every a in A and every supported w > a the runs
+    under a and w must agree step by step (no unknown node or child, no gateway-ready, no heartbeat: the preconditions
+    of the cross-line case and of the 2.2 exception hold too).  Also one history per version set in which a node of
+    every presentation type presents itself, then a child, a set and a req.
+    Yields (history without version, A, label).  `outside`: instead, per version, a history with child / value types
+    just outside that version's tables - nothing is stated about those, they are compared with the model only."""
+    vs = lib.VERSIONS
+    P = {v: sorted(int(t) for t in proto_tables(v)["presentation"]) for v in vs}
+    S = {v: sorted(int(t) for t in proto_tables(v)["setreq"]) for v in vs}
+    T0 = gw.DEFAULT_TIME
+
+    def start(h: Hist, n: int, ntype: int = 17):
+        style = rng.randint(0, 5)
+        if style == 0:
+            h.preload.append(("node", n, ntype, "2.0", "", "", 0, 0, True, False))       # reboot wanted: a set triggers it
+        elif style == 1:
+            h.preload.append(("node", n, ntype, "2.0", "Sk", "1.0", 55, 0, False, True))  # asleep: held send calls
+        else:
+            h.ops.append(("recv", f"{n};255;0;{rng.choice((0, 0, 1))};{ntype};{rng.choice(('2.0', '1.4.1', ''))}", (), T0))
+
+    def cell_ops(h: Hist, n: int, c: int, s: int):
+        ack = lambda: 1 if rng.random() < 0.25 else 0  # noqa: E731
+        if rng.random() < 0.2:
+            h.ops.append(("recv", f"{n};{c};2;{ack()};{s};", (), T0))       # asked for before anything was reported
+        h.ops.append(("recv", f"{n};{c};1;{ack()};{s};{rng.choice(GRID_PAYLOADS)}", (), T0))
+        h.ops.append(("recv", f"{n};{c};2;{ack()};{s};", (), T0))
+        h.ops.append(("send", (n, c, 1, ack(), s, rng.choice(GRID_PAYLOADS)), rng.random() < 0.7, ()))
+
+    if outside:
+        for v in vs:
+            h = Hist(None, True)
+            n = rng.randint(1, 254)
+            start(h, n)
+            for c, p in enumerate((P[v][-1] + 1, 200, 254)):
+                h.ops.append(("recv", f"{n};{c};0;0;{p};d", (), T0))
+                for s in (S[v][0], S[v][-1], S[v][-1] + 1, 200):
+                    cell_ops(h, n, c, s)
+            c = 7
+            h.ops.append(("recv", f"{n};{c};0;0;{P[v][0]};d", (), T0))
+            for s in (S[v][-1] + 1, S[v][-1] + 2, 199, 255):
+                cell_ops(h, n, c, s)
+            yield h, (v,), "outside"
+        return
+
+    def versions_of(p, s):
+        return tuple(v for v in vs if p in P[v] and (s is None or s in S[v]))
+
+    groups: dict = {}
+    for p in sorted({t for v in vs for t in P[v]}):
+        for s in sorted({t for v in vs for t in S[v]}):
+            A = versions_of(p, s)
+            if A and A[0] != vs[-1]:          # a newer supported version to compare with exists
+                groups.setdefault((p, A), []).append(s)
+    for (p, A), ss in groups.items():
+        for k in range(0, len(ss), GRID_CHUNK):
+            h = Hist(None, rng.random() < 0.5)
+            n, c = rng.randint(1, 254), rng.choice((0, 1, rng.randint(0, 254)))
+            start(h, n)
+            h.ops.append(("recv", f"{n};{c};0;{rng.choice((0, 0, 1))};{p};{rng.choice(('d', '', 'x y'))}", (), T0))
+            for s in ss[k:k + GRID_CHUNK]:
+                cell_ops(h, n, c, s)
+            yield h, A, f"child-type {p}"
+    # nodes of every presentation type
+    ngroups: dict = {}
+    for p in sorted({t for v in vs for t in P[v]}):
+        A = versions_of(p, None)
+        if A and A[0] != vs[-1]:
+            ngroups.setdefault(A, []).append(p)
+    for A, ps in ngroups.items():
+        h = Hist(None, True)
+        s_common = [s for s in S[A[0]] if all(s in S[a] for a in A)]
+        p_common = [q for q in P[A[0]] if all(q in P[a] for a in A)]
+        for i, p in enumerate(ps):
+            n = 1 + i
+            h.ops.append(("recv", f"{n};255;0;0;{p};{rng.choice(('2.0', '1.4.1', ''))}", (), T0))
+            if s_common:
+                h.ops.append(("recv", f"{n};0;0;0;{rng.choice(p_common)};d", (), T0))
+                cell_ops(h, n, 0, rng.choice(s_common))
+        yield h, A, "node-types"
+
+
+def run_both_pieces(hists, corr: Corr, ctx, view: str, what: str, workers: int = 6, with_model=None):
+    """`run_both` with the model side cut at history boundaries into pieces that run in parallel driver processes.
+    `with_model` (one bool per history): which runs are also put through the model (default: all); the
+    implementation traces of all histories are returned."""
+    impl_all = gw.run_impl_many(hists)
+    if not ctx.model_ok or not hists:
+        return impl_all
+    from concurrent.futures import ThreadPoolExecutor
+    impl = impl_all
+    if with_model is not None:
+        impl = [io for io, m in zip(impl_all, with_model) if m]
+        hists = [h for h, m in zip(hists, with_model) if m]
+    per_hist = [gw.model_lines(h) for h in hists]
+    total = sum(len(x) for x in per_hist)
+    target = max(1, -(-total // workers))
+    pieces, cur = [], []
+    for ml in per_hist:
+        cur.extend(ml)
+        if len(cur) >= target:
+            pieces.append(cur)
+            cur = []
+    if cur:
+        pieces.append(cur)
+    with ThreadPoolExecutor(max_workers=workers) as ex:
+        outs = [o for part in ex.map(lib.run_model, pieces) for o in part]
+    pos = 0
+    for h, io, ml in zip(hists, impl, per_hist):
+        mo = gw.model_obs(h, outs[pos:pos + len(ml)])
+        pos += len(ml)
+        for i, (o, (mout, mstate)) in enumerate(zip(io, mo)):
+            iout = o["out"] + gw.render_writes(o["writes"]) if i else "init W"
+            a, bb = project(view, iout, o["state"]), project(view, mout, mstate)
+            if a != bb:
+                short = Hist(h.version, h.metric, h.preload, h.ops[:i])
+                corr.disagree(what, {"history": short.to_json(), "step": i, "view": view, "impl": list(a), "model": list(bb)})
+                break
+    return impl_all
+
+
+def _c19_type_grid(corr: Corr, ctx) -> None:
+    """Every (child type, value type) cell of the older protocol's tables, under every ordered pair of versions."""
+    rng = lib.rng_for(ctx.seed, "c19-grid")
+    vs = lib.VERSIONS
+    rounds = 1 if ctx.tier == "quick" else 6
+    base = [x for _ in range(rounds) for x in type_grid_histories(rng)]
+    hists, index, with_model = [], [], []
+    for k, (h, A, label) in enumerate(base):
+        run_under = vs[vs.index(A[0]):]
+        index.append((len(hists), run_under))
+        hists += [Hist(v, h.metric, h.preload, h.ops) for v in run_under]
+        # the pair oracle judges every run; the quick tier puts the run under the oldest version and under one of the
+        # newer ones (rotating) through the model as well, the thorough tier all of them
+        with_model += [ctx.tier != "quick" or j == 0 or j == 1 + k % (len(run_under) - 1) for j in range(len(run_under))]
+    outside = [Hist(A[0], h.metric, h.preload, h.ops) for h, A, _ in type_grid_histories(rng, outside=True)]
+    with_model += [True] * len(outside)
+    corr.count("grid:runs", len(hists))
+    corr.count("grid:runs also compared with the model", sum(with_model))
+    impl = run_both_pieces(hists + outside, corr, ctx, "full", "full view (type grid)", with_model=with_model)
+    shrunk = 0
+    for (h, A, label), (first, run_under) in zip(base, index):
+        cells = sum(1 for op in h.ops if op[0] == "recv" and op[1].split(";")[2] == "1")
+        for a in A:
+            for w in run_under[run_under.index(a) + 1:]:
+                ia, ib = impl[first + run_under.index(a)], impl[first + run_under.index(w)]
+                i = _c19_first_diff(ia, ib)
+                if i is not None:
+                    cut = Hist(a, h.metric, h.preload, h.ops[:i])
+                    if shrunk < 3:
+                        shrunk += 1
+                        cut = _c19_shrink(cut, a, w)
+                        ja, jb = gw.run_impl_many([cut, Hist(w, cut.metric, cut.preload, cut.ops)])
+                        va, vb = _c19_obs(ja[-1]), _c19_obs(jb[-1])
+                    else:
+                        va, vb = _c19_obs(ia[i]), _c19_obs(ib[i])
+                    corr.violate("the same history is handled differently by a newer protocol version",
+                                 {"older": a, "newer": w, "scenario": "type grid: " + label, "history": cut.to_json(),
+                                  "older_obs": [str(x)[:300] for x in va], "newer_obs": [str(x)[:300] for x in vb]})
+                corr.case(("grid", a, w, label, first), True,
+                          {"older": a, "newer": w, "scenario": "type grid: " + label, "ops": len(h.ops)} if first % 211 == 0 else None)
+                corr.count(f"grid:{a}->{w}:histories")
+                corr.count(f"grid:{a}->{w}:" + ("node types" if label == "node-types" else "cells(child type x value type)"), cells)
+    for h in outside:
+        corr.case(("grid-outside", h.version), True, None)
+        corr.count("grid:types outside the version's tables (model comparison only)")
+    corr.notes.append("type grid: the cells (child type x set/req type) are computed from the extracted tables of the tree under "
+                      "check; they are expressible as operations of the Lean model's driver, so the runs are also compared with the "
+                      "model (full view; quick tier: the run under the oldest version and one newer version per history, thorough "
+                      "tier: every run); the histories with child / value types OUTSIDE a version's tables are outside the "
+                      "property's statement and are compared with the model only, not judged by the pair oracle")
+
+
 def run_c19(ctx) -> Corr:
     corr = Corr("C19", "two real gateways fed the same history under every ordered pair of supported versions (same major line: "
                 "1.4/1.5, 2.0/2.1, 2.0/2.2, 2.1/2.2; across 1.x->2.x with known nodes only and no gateway-ready), histories "
                 "restricted to the older protocol's types (heartbeat response excluded when 2.2 is the newer side, and checked "
                 "separately as the stated exception); each run also compared with the Lean model (full view); oracle = "
-                "identical outcomes, registry, buffers and writes step by step. non-trivial = distinct (pair, history)")
+                "identical outcomes, registry, buffers and writes step by step. non-trivial = distinct (pair, history). "
+                "Plus the type grid: a child of EVERY presentation type of the older protocol's table, then req / set / req / "
+                "send call of EVERY set/req type of that table with rotating payload kinds and ack flags (nodes freshly "
+                "presented, wanting a reboot, or asleep), and nodes of every presentation type; each such history is run under "
+                "every version from the oldest whose tables contain its types and judged by the same oracle for every ordered "
+                "pair (counted under grid:*)")
     rng = lib.rng_for(ctx.seed, "c19")
     pairs = [("1.4", "1.5", False), ("2.0", "2.1", False), ("2.0", "2.2", False), ("2.1", "2.2", False),
              ("1.4", "2.0", True), ("1.5", "2.0", True), ("1.4", "2.2", True), ("1.5", "2.1", True), ("1.5", "2.2", True), ("1.4", "2.1", True)]
@@ -2315,4 +2540,5 @@ def run_c19(ctx) -> Corr:
         o = gw.run_impl(h)[1]
         if o["nodes"][1]["sleeping"] != sleeps or o["nodes"][1]["hb"] != 9:
             corr.violate("heartbeat response: the one stated difference between 2.0/2.1 and 2.2 is not as stated", {"version": v})
+    _c19_type_grid(corr, ctx)
     return corr
